@@ -38,7 +38,7 @@ def ePkcs7 := "pkcs7:padding"
 def ePkcs7Size := "pkcs7:blocksize"
 /-- "message authentication failed" of any AEAD -/
 def eAuth := "aead:auth"
-/-- aescbcaead.Open: "invalid ciphertext size" -/
+/-- aescbcaead.Open: "invalid ciphertext size" / "invalid nonce size" -/
 def eAeadSize := "aead:size"
 /-- "invalid algorithm" of the two cipher getters -/
 def eInvalidAlgorithm := "invalid algorithm"
@@ -245,7 +245,8 @@ def cbcHmacSeal (P : Prims) (p : AeadParams) (key iv pt ad : Bytes) : Outcome By
 decrypted or unpadded; an authenticated body that is not block aligned is an error (fix 5c853ad;
 before it `CryptBlocks` panicked). -/
 def cbcHmacOpen (P : Prims) (p : AeadParams) (key iv c ad : Bytes) : Outcome Bytes :=
-  if c.length < p.tagSize then .err eAeadSize
+  if iv.length ≠ 16 then .err eAeadSize            -- "invalid nonce size" (fix c71e752)
+  else if c.length < p.tagSize then .err eAeadSize
   else
     let tag := c.drop (c.length - p.tagSize)
     let body := c.take (c.length - p.tagSize)
@@ -639,6 +640,23 @@ def asymOutcome (fn alg : String) (k : KeyKind) : Outcome Unit :=
     | some e => .err e
     | none => .ok ()
 
+/-- Dispatch and key guard of an asymmetric entry point together: the plan (helper, hash, curve) the
+call proceeds with, or the error it returns.  `asymOutcome` is this with the plan forgotten. -/
+def asymDispatch (fn alg : String) (k : KeyKind) : Outcome AsymPlan :=
+  let viaPublic := fn = "EncryptPublicKey" ∨ fn = "VerifyPublicKey"
+  let sw :=
+    if fn = "EncryptPublicKey" then Generated.C03.sw_EncryptPublicKey
+    else if fn = "DecryptPrivateKey" then Generated.C03.sw_DecryptPrivateKey
+    else if fn = "SignPrivateKey" then Generated.C03.sw_SignPrivateKey
+    else Generated.C03.sw_VerifyPublicKey
+  match asymPlan sw alg with
+  | .err e => .err e
+  | .panic w => .panic w
+  | .ok pl =>
+    match asymGuard pl (if viaPublic then toPublic k else k) with
+    | some e => .err e
+    | none => .ok pl
+
 /-- An abstract signature scheme as the stdlib presents it to the helpers. -/
 inductive StdVerify where
   | valid
@@ -657,21 +675,23 @@ structure SigScheme (SK PK : Type) where
 def SigScheme.Lawful {SK PK} (S : SigScheme SK PK) : Prop :=
   ∀ sk d r s, S.sign sk d r = .ok s → S.verify (S.pub sk) d s = .valid
 
-/-- `SignPrivateKey` after dispatch and the key-kind guard. -/
-def signPrivateKey {SK PK} (S : SigScheme SK PK) (alg : String) (kind : KeyKind) (sk : SK)
+/-- `SignPrivateKey`: dispatch, key guard, then the stdlib signer the dispatched helper calls.  The
+scheme is a FUNCTION OF THE DISPATCH RESULT `F pl` (helper's stdlib call, hash, curve): which hash /
+curve / padding is used is decided by the generated tables, not by the caller of the model. -/
+def signPrivateKey {SK PK} (F : AsymPlan → SigScheme SK PK) (alg : String) (kind : KeyKind) (sk : SK)
     (digest rand : Bytes) : Outcome Bytes :=
-  match asymOutcome "SignPrivateKey" alg kind with
-  | .ok () => S.sign sk digest rand
+  match asymDispatch "SignPrivateKey" alg kind with
+  | .ok pl => (F pl).sign sk digest rand
   | .err e => .err e
   | .panic w => .panic w
 
 /-- `VerifyPublicKey`: the RSA helpers map `rsa.ErrVerification` to `(false, nil)` when the
 generated fact `mapsErrVerification` holds; ECDSA/Ed25519 return the boolean. -/
-def verifyPublicKey {SK PK} (S : SigScheme SK PK) (alg : String) (kind : KeyKind) (pk : PK)
+def verifyPublicKey {SK PK} (F : AsymPlan → SigScheme SK PK) (alg : String) (kind : KeyKind) (pk : PK)
     (digest sig : Bytes) : Outcome Bool :=
-  match asymOutcome "VerifyPublicKey" alg kind with
-  | .ok () =>
-    match S.verify pk digest sig with
+  match asymDispatch "VerifyPublicKey" alg kind with
+  | .ok pl =>
+    match (F pl).verify pk digest sig with
     | .valid => .ok true
     | .invalid => .ok false
     | .failure e => .err e
@@ -689,19 +709,19 @@ structure PkeScheme (SK PK : Type) where
 def PkeScheme.Lawful {SK PK} (S : PkeScheme SK PK) : Prop :=
   ∀ sk m l r c, S.enc (S.pub sk) m l r = .ok c → S.dec sk c l = .ok m
 
-/-- `EncryptPublicKey` after `key.PublicKey()`, dispatch and the key-kind guard. -/
-def encryptPublicKey {SK PK} (S : PkeScheme SK PK) (alg : String) (kind : KeyKind) (pk : PK)
+/-- `EncryptPublicKey` after `key.PublicKey()`, dispatch and the key-kind guard; scheme = `F pl`. -/
+def encryptPublicKey {SK PK} (F : AsymPlan → PkeScheme SK PK) (alg : String) (kind : KeyKind) (pk : PK)
     (msg label rand : Bytes) : Outcome Bytes :=
-  match asymOutcome "EncryptPublicKey" alg kind with
-  | .ok () => S.enc pk msg label rand
+  match asymDispatch "EncryptPublicKey" alg kind with
+  | .ok pl => (F pl).enc pk msg label rand
   | .err e => .err e
   | .panic w => .panic w
 
-/-- `DecryptPrivateKey` after dispatch and the key-kind guard. -/
-def decryptPrivateKey {SK PK} (S : PkeScheme SK PK) (alg : String) (kind : KeyKind) (sk : SK)
+/-- `DecryptPrivateKey` after dispatch and the key-kind guard; scheme = `F pl`. -/
+def decryptPrivateKey {SK PK} (F : AsymPlan → PkeScheme SK PK) (alg : String) (kind : KeyKind) (sk : SK)
     (ct label : Bytes) : Outcome Bytes :=
-  match asymOutcome "DecryptPrivateKey" alg kind with
-  | .ok () => S.dec sk ct label
+  match asymDispatch "DecryptPrivateKey" alg kind with
+  | .ok pl => (F pl).dec sk ct label
   | .err e => .err e
   | .panic w => .panic w
 
@@ -709,27 +729,22 @@ def decryptPrivateKey {SK PK} (S : PkeScheme SK PK) (alg : String) (kind : KeyKi
 def encryptRoute (alg : String) : Option String := (lookupSwitch Generated.C03.sw_Encrypt alg).map (·.1)
 def decryptRoute (alg : String) : Option String := (lookupSwitch Generated.C03.sw_Decrypt alg).map (·.1)
 
-def encrypt (P : Prims) (pt : Bytes) (alg : String) (key : Key) (nonce ad : Bytes) :
-    Outcome (Bytes × Bytes) :=
+/-- `Encrypt`.  On the public-key route the ciphertext comes from `EncryptPublicKey` (the tag is
+nil); `pk` / `rand` are the key material and the randomness that route uses. -/
+def encrypt {SK PK} (P : Prims) (F : AsymPlan → PkeScheme SK PK) (pk : PK) (rand : Bytes)
+    (pt : Bytes) (alg : String) (key : Key) (nonce ad : Bytes) : Outcome (Bytes × Bytes) :=
   match encryptRoute alg with
   | some "EncryptSymmetric" => encryptSymmetric P pt alg key nonce ad
-  | some "EncryptPublicKey" =>
-    match asymOutcome "EncryptPublicKey" alg key.kind with
-    | .ok () => .panic "model: RSA encryption is not executable in the model"
-    | .err e => .err e
-    | .panic w => .panic w
+  | some "EncryptPublicKey" => (encryptPublicKey F alg key.kind pk pt ad rand).bind fun c => .ok (c, [])
   | some c => .panic ("model: unknown entry " ++ c)
   | none => .err Generated.C03.sw_Encrypt.dflt
 
-def decrypt (P : Prims) (ct : Bytes) (alg : String) (key : Key) (nonce tag ad : Bytes) :
-    Outcome Bytes :=
+/-- `Decrypt`. -/
+def decrypt {SK PK} (P : Prims) (F : AsymPlan → PkeScheme SK PK) (sk : SK)
+    (ct : Bytes) (alg : String) (key : Key) (nonce tag ad : Bytes) : Outcome Bytes :=
   match decryptRoute alg with
   | some "DecryptSymmetric" => decryptSymmetric P ct alg key nonce tag ad
-  | some "DecryptPrivateKey" =>
-    match asymOutcome "DecryptPrivateKey" alg key.kind with
-    | .ok () => .panic "model: RSA decryption is not executable in the model"
-    | .err e => .err e
-    | .panic w => .panic w
+  | some "DecryptPrivateKey" => decryptPrivateKey F alg key.kind sk ct ad
   | some c => .panic ("model: unknown entry " ++ c)
   | none => .err Generated.C03.sw_Decrypt.dflt
 
